@@ -175,28 +175,18 @@ func (w *Writer) WriteRecord(recordSamples int32, recordPreSamples int32, framec
 	if len(data) != w.NumberOfBases {
 		return fmt.Errorf("wrong number of bases, have %v, want %v", len(data), w.NumberOfBases)
 	}
-	if _, err := w.writer.Write(getbytes.FromInt32(int32(recordSamples))); err != nil {
-		return err
-	}
-	if _, err := w.writer.Write(getbytes.FromInt32(int32(recordPreSamples))); err != nil {
-		return err
-	}
-	if _, err := w.writer.Write(getbytes.FromInt64(framecount)); err != nil {
-		return err
-	}
-	if _, err := w.writer.Write(getbytes.FromInt64(timestamp)); err != nil {
-		return err
-	}
-	if _, err := w.writer.Write(getbytes.FromFloat32(pretriggerMean)); err != nil {
-		return err
-	}
-	if _, err := w.writer.Write(getbytes.FromFloat32(pretriggerDelta)); err != nil {
-		return err
-	}
-	if _, err := w.writer.Write(getbytes.FromFloat32(residualStdDev)); err != nil {
-		return err
-	}
-	if _, err := w.writer.Write(getbytes.FromSliceFloat32(data)); err != nil {
+	// Hand the whole record to the asynchronous writer in a single Write. That Write never blocks:
+	// it fails when the write queue is full, so a record issued in several pieces could be cut short.
+	rec := make([]byte, 0, 36+4*len(data))
+	rec = append(rec, getbytes.FromInt32(int32(recordSamples))...)
+	rec = append(rec, getbytes.FromInt32(int32(recordPreSamples))...)
+	rec = append(rec, getbytes.FromInt64(framecount)...)
+	rec = append(rec, getbytes.FromInt64(timestamp)...)
+	rec = append(rec, getbytes.FromFloat32(pretriggerMean)...)
+	rec = append(rec, getbytes.FromFloat32(pretriggerDelta)...)
+	rec = append(rec, getbytes.FromFloat32(residualStdDev)...)
+	rec = append(rec, getbytes.FromSliceFloat32(data)...)
+	if _, err := w.writer.Write(rec); err != nil {
 		return err
 	}
 	w.recordsWritten++
